@@ -15,7 +15,7 @@ DIGITS_RE = re.compile(rb"^[0-9]+$")
 HEX_RE = re.compile(rb"^[0-9a-fA-F]+$")
 # status-code is 3DIGIT; other digit strings are invalid but every recipient that accepts them frames the
 # message the same way (they are not 1xx/204/304), so P accepts them and the callers count them as a probe.
-STATUS_RE = re.compile(rb"^[0-9]{1,4}$")
+STATUS_RE = re.compile(rb"^[0-9]+$")
 
 
 class Ambiguous(Exception):
@@ -161,7 +161,11 @@ def _read_chunked(data: bytes, pos: int, msg: Msg):
         size = int(size_part, 16)
         pos = pos2
         if size == 0:
-            trailers, pos, inv = _read_fields(data, pos, "trailer section")
+            try:
+                trailers, pos, inv = _read_fields(data, pos, "trailer section")
+            except Ambiguous as e:
+                e.kind = "chunk"  # a problem inside the body phase: the head may long have been relayed (streaming)
+                raise
             msg.trailers = trailers
             msg.invalid_octets += inv
             msg.body = bytes(body)
